@@ -65,6 +65,10 @@ CHECKS["C01"] = dict(level="exploration",
    text="Schedule search with a deterministic cooperative scheduler that owns the interleaving at every storage-API call, lock syscall, atomic publish and S3 request: exhaustive single-preemption enumeration (every decision index x every actor x both priority orders) for fixed 2-committer scenarios, plus Hypothesis PCT-style schedules (priority order + <=3 change points) over generated scenarios (local flock / conditional-write S3, shared or separate handles, real-like or coarse clock, 2-4 committers over 6 operation kinds). Refinement oracle: every version the pointer ever named is parsed by the independent reader in flip order and must equal the previous version with exactly the flipping actor's operation applied; acknowledged <=> flipped exactly once; final table = last flipped version; sequence numbers unique and +1 per snapshot commit.",
    note="A bounded search: preemption depth 1 exhaustively for the fixed scenarios, depth <=3 sampled elsewhere; interleavings inside one storage call / inside pyarrow and true multi-process memory effects are out of reach. Separate handles in one process stand in for separate processes (kernel flock and the object store are the only shared state).",
    technique="deterministic-scheduler schedule enumeration + Hypothesis PCT schedule generation, refinement oracle against a sequential model over the pointer-flip history", design="3/C01")
+CHECKS["C02"] = dict(level="exploration",
+   text="Schedule search with the deterministic scheduler: exhaustive single-preemption enumeration for fixed reader x writer scenarios (incl. the empty table, multi-append transactions, deletes, a rolled-back transaction and a commit failing at the pointer write; local and conditional-write S3; shared and separate handles) plus Hypothesis PCT schedules over generated scenarios with 1-2 readers (1-2 successive reads each, every read API with filter / projection / verification options) and 1-3 writers. From the pointer-flip log the committed current snapshots and the step interval of each are reconstructed by the independent reader; every read must RETURN exactly the (filtered, projected) rows of one snapshot that was current at some instant of the read, and successive reads on one handle must not go backwards.",
+   note="Bounded schedule search (depth 1 exhaustive on fixed scenarios, depth <=3 sampled). Thread-pool workers of a parallel scan are not scheduled individually. GC and expiry are not among the writers here.",
+   technique="deterministic-scheduler schedule enumeration + Hypothesis PCT schedules, linearizability-style oracle over the pointer-flip history", design="3/C02")
 NOT_YET = {}
 
 def main():
